@@ -104,6 +104,7 @@ def run(ctx):
     samples = []
     corrupt = None
     real_refreshes = 0
+    failed_refreshes = 0
     hook_runs = 0
     # phase 1: run the four drivers against the real code
     plan = (("default", "TraceRefreshHold.cfg", ctx.pick(200, 1500), ctx.pick(32, 40)),
@@ -129,6 +130,7 @@ def run(ctx):
         for k in ("traces", "calls", "refused", "distinct_hold_states"):
             totals[k] += st[k]
         real_refreshes += st.get("real_refreshes", 0)
+        failed_refreshes += st.get("failed_undone_refreshes", 0)
         if mode == "hookrun":
             hook_runs = st["calls"]
         totals["events"] += len(rows)
@@ -182,6 +184,7 @@ def run(ctx):
             "invariants": INVS,
             "traces_validated_against_impl": totals["traces"],
             "real_calls": totals["calls"], "refreshes_through_real_task_runner": real_refreshes,
+            "of_which_failed_and_undone_after_link_snap": failed_refreshes,
             "real_gate_auto_refresh_hook_runs": hook_runs, "real_events": totals["events"], "real_refusals": totals["refused"],
             "distinct_real_hold_states": totals["distinct_hold_states"],
             "binding_selfcheck": corrupt,
@@ -193,6 +196,8 @@ def run(ctx):
             "gate-auto-refresh error path (both pass holdDuration=0); explicit durations are bound for the 90-day rule only",
             "a hold episode of g on s is the lifetime of the entry snaps-hold[s][g] (a refusal or --proceed ends it)",
             "system holds requested for a time strictly in the future",
+            "the 90-day invariants are judged against the spec's own lastRefresh (moved only by a SUCCESSFUL refresh), not "
+            "against what the code reports as last refresh; the two are compared in the strict pass",
             "hookrun traces use the real clock: time advances by shifting the stored timestamps, values are rounded to whole "
             "virtual hours and ticks never land exactly on a boundary there (exact boundaries are covered by the mocked-clock traces)",
             "refresh = resetGatingForRefreshed (as doInstall calls it) + LastRefreshTime update (as doLinkSnap does) in the "
